@@ -1,7 +1,6 @@
 //! cvh — harness side: interpreter from the model's AST to real chumsky parsers, exploration engines.
 pub mod e1;
 pub mod interp;
-pub mod props;
 pub mod replay;
 pub mod unit;
 
